@@ -3,7 +3,7 @@
    indices (1-based) of the queries / of the reference collection in container order; r.idx = explicit 0-based selection
    of references (or r.has_idx = FALSE); r.pair[a][b] = bit pattern of the two-signature distance reported for pool
    members a, b; r.out = bit patterns of the bulk result. *)
-EXTENDS Jaccard, Judge
+EXTENDS Jaccard, SigIndex, Judge
 
 BitsOf(f) == IF f.z THEN 0 ELSE (f.e + 127) * 8388608 + (f.m - 8388608)
 SetOf(r, a) == Range(r.sets[a])
@@ -13,9 +13,16 @@ Cols(r) == IF r.has_idx THEN [j \in DOMAIN r.idx |-> r.r[r.idx[j] + 1]] ELSE r.r
 PairOK(r) == \A a \in DOMAIN r.sets : \A b \in DOMAIN r.sets :
                r.pair[a][b] # -2 => r.pair[a][b] = BitsOf(Dist32(SetOf(r, a), SetOf(r, b)))
 
+\* records of the family mutated-reference-lists carry the list before (r.r0) and the actions applied (r.hist): the list the bulk call must
+\* describe (r.r, tracked by the harness with a plain python list) is the one the specification's list machine reaches
+RECURSIVE Final(_, _)
+Final(l, h) == IF h = <<>> THEN l ELSE Final(Effect(l, Head(h)).lst, Tail(h))
+HistOK(r) == ("hist" \in DOMAIN r) => r.r = Final(r.r0, r.hist)
+
 ClMatrix(r) ==
   LET cols == Cols(r) IN
   << <<"no-error", r.ok>>,
+     <<"reference-list-is-what-the-mutation-history-leaves", HistOK(r)>>,
      <<"two-signature-distance-is-the-rounded-ratio", r.ok => PairOK(r)>>,
      <<"shape", r.ok => Len(r.out) = Len(r.q) /\ \A i \in DOMAIN r.out : Len(r.out[i]) = Len(cols)>>,
      <<"cells-bit-identical-to-two-signature-distance-in-caller-order", r.ok =>
@@ -25,6 +32,7 @@ ClMatrix(r) ==
 ClSquare(r) ==
   LET cols == Cols(r)  n == Len(cols) IN
   << <<"no-error", r.ok>>,
+     <<"reference-list-is-what-the-mutation-history-leaves", HistOK(r)>>,
      <<"two-signature-distance-is-the-rounded-ratio", r.ok => PairOK(r)>>,
      <<"shape", r.ok => Len(r.out) = n /\ \A i \in DOMAIN r.out : Len(r.out[i]) = n>>,
      <<"cells-bit-identical-to-two-signature-distance-in-caller-order", r.ok =>
@@ -36,6 +44,7 @@ FlatPos(i, j, n) == n * i - (i * (i + 1)) \div 2 + (j - i - 1)
 ClFlat(r) ==
   LET cols == Cols(r)  n == Len(cols) IN
   << <<"no-error", r.ok>>,
+     <<"reference-list-is-what-the-mutation-history-leaves", HistOK(r)>>,
      <<"two-signature-distance-is-the-rounded-ratio", r.ok => PairOK(r)>>,
      <<"shape", r.ok => Len(r.out) = 1 /\ Len(r.out[1]) = (n * (n - 1)) \div 2>>,
      <<"condensed-cells-bit-identical-in-pair-order", r.ok =>
